@@ -156,12 +156,20 @@ def step (s : State) (w : List String) : State × String :=
   | ["p", "node"] =>
     let r := parseNode s.root s.fmt s.sect s.opt s.eof s.input
     let verdict := if r.code < 0 then "err" else "ok"
+    -- into an empty target the nodes must carry the names and values of the parsed elements
+    let nm := if s.root.isEmpty then "ok" else "-"
+    let names := if r.code < 0 then "-" else nm
     let alts := match s.expect with
-      | some f => s!"ok sound=ok ; {fmtForest f}"
+      | some f => s!"ok sound=ok names={nm} ; {fmtForest f}"
       | none =>
-        if s.eof == -2 then s!"ok sound=ok ; * || err sound=ok ; {fmtForest s.root}"
-        else s!"err sound=ok ; {fmtForest s.root}"
-    ({ s with root := r.children }, s!"R {verdict} sound=ok | C {fmtForest r.children} | I {internals r.code r.st r.src s.input.length} | S {alts}")
+        if s.eof == -2 then s!"ok sound=ok names={nm} ; * || err sound=ok names=- ; {fmtForest s.root}"
+        else s!"err sound=ok names=- ; {fmtForest s.root}"
+    ({ s with root := r.children, expect := none },
+      s!"R {verdict} sound=ok names={names} | C {fmtForest r.children} | I {internals r.code r.st r.src s.input.length} | S {alts}")
+  | ["p", "expect", f] =>
+    match parseForest f with
+    | some f => ({ s with expect := some f }, "R ok")
+    | none => (s, "bad-op")
   | ["p", "nparse", lim, lg] =>
     let lo : Option (Option (List UInt8)) :=
       if lim == "null" then some none
